@@ -11,6 +11,7 @@ from . import rules_hash as RH
 from . import rules_bits as RBI
 from . import rules_str as RST
 from . import rules_parse as RP
+from . import rules_holder as RHO
 
 
 def need_unit(ctx, name, w1=False, **kw):
@@ -55,6 +56,8 @@ def C12(ctx):
     RG.check_guards(ctx, u, GUARD_TABLE)
     RG.check_swap(ctx, u, ["frg::unique_lock", "frg::shared_lock"])
     RA.check_spinlocks(ctx, u)
+    ctx.rule("W2.guard-types", "guards and spinlocks are non-copyable, unique_lock/shared_lock movable (static_asserts)", 4)
+    RO.check_typelevel(ctx, "W2.guard-types", "guards:", 4)
     return ("Structural part of C12 only: guard classes (unique_lock, shared_lock, qs lock_guard) are abstractly "
             "executed over their event CFGs with the ownership flag and the sequence of mutex calls as state. "
             "Not decided: mutual exclusion / FIFO hand-over over interleavings.")
@@ -243,4 +246,22 @@ def C19(ctx):
             "NOT decided: byte-for-byte agreement with ISO C printf (a numeric/string result over runtime values).")
 
 
-PROPS = {"C19": C19, "C20": C20, "C15": C15, "C18": C18, "C14": C14, "C13": C13, "C16": C16, "C10": C10, "C09": C09, "C11": C11, "C12": C12, "C05": C05, "C04": C04}
+HOLDERS = ["frg::optional", "frg::manual_box", "frg::expected", "frg::variant"]
+
+
+def C17(ctx):
+    u = need_unit(ctx, "holders", w1=True)
+    RHO.check_holders(ctx, u, HOLDERS)
+    ctx.rule("W2.tuple-types", "tuple: get<I> result types (const-ness and reference members preserved), tuple_size/"
+             "tuple_element, tuple_cat result type order, make_tuple, apply result type — static_asserts evaluated by the compiler", 8)
+    RO.check_typelevel(ctx, "W2.tuple-types", "tuple:", 8)
+    RHO.check_tuple_access(ctx, u)
+    RHO.check_returns(ctx, u, [f for f in u.functions if (f.owner_cls or "") in HOLDERS])
+    return ("Structural clauses of C17: the engaged-flag state machine of optional/expected/variant/manual_box interpreted "
+            "abstractly from every consistent entry state (construct only into empty storage, destroy only a live object, flag "
+            "== storage at every exit, assignment copies engagement, dispatch chains never entered in an all-trapping state, "
+            "accessors trap when empty), every non-void member returns, tuple element access selects item/tail by index, tuple "
+            "types by static_assert. Not decided: equality of held values with the std types after histories.")
+
+
+PROPS = {"C17": C17, "C19": C19, "C20": C20, "C15": C15, "C18": C18, "C14": C14, "C13": C13, "C16": C16, "C10": C10, "C09": C09, "C11": C11, "C12": C12, "C05": C05, "C04": C04}
